@@ -4,3 +4,4 @@ import PkgProofs.Lemmas.VerOrd
 import PkgProofs.Lemmas.RxSound
 import PkgProofs.Lemmas.Dec
 import PkgProofs.Lemmas.Assoc
+import PkgProofs.Lemmas.Utf8
